@@ -1,3 +1,7 @@
--- This module serves as the root of the `HexVerif` library.
--- Import modules here that should be built as part of the library.
+-- Root of the `HexVerif` library: every model, lemma and property module.
 import HexVerif.Basic
+import HexVerif.Isa.Spec
+import HexVerif.Sim.Model
+import HexVerif.Lemmas.SimIsa
+import HexVerif.Properties.C02
+import HexVerif.Properties.C12
